@@ -12,7 +12,7 @@ prop('C09',
      theorems=['Props.C09.threshold_ok', 'Props.C09.small_factors_exact', 'Props.C09.repeat_counts', 'Props.C09.repeat_exact',
                'Props.C09.plus_counts', 'Props.C09.star_counts', 'Props.C09.opt_counts', 'Proto.genTree_counts', 'Proto.smallFactors_pos'],
      fingerprints=['lark/utils.py:small_factors', 'lark/load_grammar.py:EBNF_to_BNF._add_repeat_rule', 'lark/load_grammar.py:EBNF_to_BNF._add_repeat_opt_rule',
-                   'lark/load_grammar.py:EBNF_to_BNF._generate_repeats', 'lark/load_grammar.py:EBNF_to_BNF.expr'],
+                   'lark/load_grammar.py:EBNF_to_BNF._generate_repeats', 'lark/load_grammar.py:EBNF_to_BNF.expr', 'lark/load_grammar.py:EBNF_to_BNF._add_rule', 'lark/load_grammar.py:EBNF_to_BNF._add_recurse_rule', 'lark/load_grammar.py:SimplifyRule_Visitor.expansion'],
      rule='(a) small_factors(n, f) of the real code vs the Lean smallFactors for every n below a bound and f in 3..9; (b) the helper-rule tree the real '
           'EBNF_to_BNF._generate_repeats builds vs the Lean genTree (the function repeat_counts is about) for (mn, mx) pairs; (c) end to end: grammars '
           'x~mn..mx / x? / x* / x+ with x a terminal, rule, group or template argument, rule side and terminal side, Earley and LALR, parsed on k '
@@ -152,7 +152,7 @@ prop('C03',
      theorems=['Props.C03.built_tree_is_documented_shaping', 'Props.C03.placeholders_in_grammar_order', 'Props.C03.expand1_single', 'Props.C03.alias_never_inlined', 'ShapeProto.applyPlan_eq_spec'],
      fingerprints=['lark/parse_tree_builder.py:maybe_create_child_filter', 'lark/parse_tree_builder.py:ChildFilter.__call__', 'lark/parse_tree_builder.py:ChildFilterLALR.__call__',
                    'lark/parse_tree_builder.py:ChildFilterLALR_NoPlaceholders.__call__', 'lark/parse_tree_builder.py:ExpandSingleChild.__call__', 'lark/parse_tree_builder.py:ParseTreeBuilder._init_builders',
-                   'lark/parse_tree_builder.py:ParseTreeBuilder.create_callback', 'lark/load_grammar.py:EBNF_to_BNF.expr'],
+                   'lark/parse_tree_builder.py:ParseTreeBuilder.create_callback', 'lark/load_grammar.py:EBNF_to_BNF.expr', 'lark/load_grammar.py:EBNF_to_BNF._add_rule', 'lark/load_grammar.py:EBNF_to_BNF.maybe', 'lark/load_grammar.py:FindRuleSize._will_not_get_removed'],
      rule='random Lark sources using ?, !, _rules, _TERMINALS, aliases, [..], ?, *, +, ~n, ~n..m, groups, templates, priorities x keep_all_tokens x maybe_placeholders, compiled by the real front end; sentences sampled '
           'from the compiled rules; engines earley/{dynamic,basic,dynamic_complete}, lalr/{contextual,basic}, cyk. For each engine the RAW derivation it found is obtained by running the same engine with raw '
           '(rule, children) builders in place of the callback chain; the Lean buildList (proved equal to the documented shapeList) turns it into the expected tree (node and token identities carried as unique labels), '
@@ -298,3 +298,19 @@ prop('C10',
      level_note='Trusted: Lean kernel, standard axioms, harness (gate scheduler). Modelled not verified: CPython GIL granularity; partial: runtime races outside the modelled attributes are only stress-tested.',
      technique='Lean 4 invariant proof over all interleavings of a small-step model + exhaustive deterministic scheduling of real threads (sys.settrace gates) + call-history differential testing',
      design_ref='DESIGN.md §5 C10')
+
+prop('C17',
+     modules=['LarkVerif.Earley', 'LarkVerif.Rename', 'LarkVerif.Mangle', 'LarkVerif.Props.C17'],
+     theorems=['Props.C17.renaming_preserves_language', 'Props.C17.mangle_is_injective', 'Props.C17.mangle_preserves_inlining', 'Props.C17.imported_name_is_alias', 'MangleProto.core_injective'],
+     fingerprints=['lark/load_grammar.py:GrammarBuilder.do_import', 'lark/load_grammar.py:_get_mangle', 'lark/load_grammar.py:_mangle_definition_tree', 'lark/load_grammar.py:GrammarBuilder._extend', 'lark/load_grammar.py:GrammarBuilder._define'],
+     rule='(a) random names/prefixes/alias tables through the real _get_mangle vs the Lean mangle; (b) a random grammar is split into a main file and a module (optionally a nested module imported by the module): imports with and '
+          'without "->" renames, inlined _helper rules, a local rule named like a non-imported module rule, %override and %extend of imported rules, an imported template; the module files are written to a temp directory and the '
+          'importing grammar is compared with a hand-inlined text produced by the generator itself (independent of lark\'s import code): both must build or both fail, and on 6 inputs each (Earley explicit ambiguity and LALR) '
+          'give the same error class or the same trees modulo the documented module__ prefix. Non-trivial: every split; distinct by canonical hash.',
+     not_proved=['_remove_unused (pruning), %override/%extend and template substitution are compared against the hand-inlined text, not proved', 'freedom from clashes with local names is sampled (local rule named like a non-imported module rule)'],
+     assumptions=['module prefixes do not begin with an underscore (hypothesis of mangle_is_injective)'],
+     level_text='Theorems: an injective renaming of nonterminals preserves the language exactly; _get_mangle (mirrored in Lean, compared with the real function) is injective on non-aliased names, preserves the leading-underscore (inlining) '
+                'status, and maps explicitly imported names to their aliases. Importing grammars are compared with independently hand-inlined texts.',
+     level_note='Trusted: Lean kernel, standard axioms, harness (its own inliner). Modelled not verified: the grammar-of-grammars parser, file lookup.',
+     technique='Lean 4 renaming-invariance and injectivity proofs + differential testing of import/override/extend/template against hand-inlined grammars',
+     design_ref='DESIGN.md §5 C17')
